@@ -169,6 +169,12 @@ pub mod pool {
         }
     }
 
+    impl Describe for Option<std::sync::Arc<ThreadPool>> {
+        fn describe(&self) -> Option<usize> {
+            self.as_ref().map(|p| p.current_num_threads())
+        }
+    }
+
     pub struct RwLock<T: Describe>(std::sync::RwLock<T>);
 
     pub struct ReadGuard<'a, T: Describe>(std::sync::RwLockReadGuard<'a, T>);
